@@ -281,6 +281,9 @@ def mapped_ops(ctx, spec, boxes, f, tmp, kinds=None):
         if mode in ("reflect",) and any(n[dims.index(d)] < 2 for d in pw):
             continue  # numpy cannot reflect a single cell
         ops[f"pad:{mode}"] = lambda q, mode=mode: q.pad(pw, mode=mode)
+    # "mode as defined in numpy.pad": a function that fills the new cells itself (here: with
+    # the nearest old cell) - the new cells then carry that cell's validity as well
+    ops["pad:function"] = lambda q: q.pad(pw, mode=_pad_nearest)
     n2 = tuple(int(k) for k in rng.integers(1, 7, nd))
     ops["resample"] = lambda q: q.resample(n2)
     if any(k % 2 == 0 for k in n):
@@ -312,6 +315,15 @@ def mapped_ops(ctx, spec, boxes, f, tmp, kinds=None):
     if kinds is not None:
         ops = {k: v for k, v in ops.items() if k.split(":")[0] in kinds}
     return ops
+
+
+def _pad_nearest(vector, iaxis_pad_width, iaxis, kwargs):
+    """A numpy.pad mode function: new cells copy the nearest cell of the original."""
+    a, b = iaxis_pad_width
+    if a:
+        vector[:a] = vector[a]
+    if b:
+        vector[-b:] = vector[-b - 1]
 
 
 def _rot_inplace(q, a, b, k, ref):
